@@ -304,7 +304,18 @@ class CursorAnalysis(object):
             lhs, rhs = kids(x)
             lp = self.ptr(lhs)
             if lp is not None and lp[1] == 0 and is_cursor_type(dtype(lhs) or qtype(lhs)):
-                return self.assign(x, lp[0], rhs, alt, x.get('opcode'))
+                outs_ = self.assign(x, lp[0], rhs, alt, x.get('opcode'))
+                # a lookup pointer re-assigned (dp = strchr(SET, *++p) in a loop condition): it mirrors the new lookup
+                lid = self._local_id(lhs)
+                rr_ = peel(rhs)
+                if lid is not None and x.get('opcode') == '=' and rr_ is not None and rr_.get('kind') == 'CallExpr' and callee(rr_) and \
+                        callee(rr_)[0] == 'fn' and callee(rr_)[1].get('name') == 'strchr':
+                    d_ = self.u.by_id.get(lid)
+                    if d_ is not None:
+                        for s_ in outs_:
+                            s_.assoc.pop(lid, None)
+                            self._associate(d_, rhs, s_)
+                return outs_
             # a plain local re-assigned (d = DigitValue(*p) in a for-increment): it mirrors what it is assigned now
             lid = self._local_id(lhs)
             if lid is not None and x.get('opcode') == '=':
@@ -745,6 +756,20 @@ class CursorAnalysis(object):
                     lp_ = self.ptr(kids(pp)[0])
                     if lp_ is not None and lp_[1] == 0:
                         tested_ = lp_[0]
+            # strchr(SET, c) == nullptr : c is not in SET -- and strchr finds the terminator of SET, so c is not NUL either
+            for (p_, q_) in ((a, b), (b, a)):
+                pq = peel(q_)
+                pp = peel(p_)
+                if pq is not None and pq.get('kind') in ('CXXNullPtrLiteralExpr', 'GNUNullExpr') and pp is not None and \
+                        pp.get('kind') == 'CallExpr' and callee(pp) and callee(pp)[0] == 'fn' and callee(pp)[1].get('name') == 'strchr' and \
+                        len(call_args(pp)) == 2 and eq:
+                    res = []
+                    for s in outs:
+                        ca_ = self.char_of(call_args(pp)[1], s)
+                        r = self.learn(s, ca_, NN) if ca_ is not None else s
+                        if r is not None:
+                            res.append(r)
+                    return self._cap(res)
             if tested_ is not None:
                 res = []
                 for s in outs:
@@ -1158,12 +1183,37 @@ class CursorAnalysis(object):
         return [(m, alt) for (m, _) in n.succs]
 
 
+def lookup_in_loop_condition(f):
+    """A character lookup whose result is assigned inside a loop condition (`while ((dp = strchr(SET, *++p)) != nullptr)`): what
+    the loop body then establishes about the character just looked up is not carried round the loop by the typestate."""
+    for lp in walk(f):
+        if lp.get('kind') not in ('WhileStmt', 'ForStmt', 'DoStmt'):
+            continue
+        ks = lp.get('inner') or []
+        cond = ks[2] if lp.get('kind') == 'ForStmt' and len(ks) == 5 else ks[-2] if lp.get('kind') == 'WhileStmt' and len(ks) >= 2 else \
+            ks[-1] if lp.get('kind') == 'DoStmt' and ks else None
+        if not cond or not cond.get('kind'):
+            continue
+        for y in walk(cond):
+            if y.get('kind') == 'BinaryOperator' and y.get('opcode') == '=':
+                r = peel(kids(y)[1])
+                if r is not None and r.get('kind') == 'CallExpr' and callee(r) and callee(r)[0] == 'fn' and \
+                        callee(r)[1].get('name') in ('strchr', 'memchr'):
+                    return True
+    return False
+
+
 def check_function(ctx, rule, fkey):
     ca = CursorAnalysis(ctx, fkey)
     obs = ca.run()
     n = 0
+    unfollowed = lookup_in_loop_condition(ctx.G.defs[fkey][1])
     for (node, what, ok, detail) in obs:
         n += 1
+        if ok is False and unfollowed:
+            ok = None
+            detail = 'a lookup result is assigned inside a loop condition: what the body establishes about the character is not ' \
+                     'carried round the loop (%s)' % detail
         ctx.check3(ok, rule, '%s at %s in %s' % (what, pos(node), fname(fkey).split('(')[0]), node,
                    'the cursor can be moved or read past the terminator of its string: %s' % detail,
                    construct='cursor:%s:%s' % (fname(fkey).split('(')[0], what), detail='known characters suffice on every path',
